@@ -19,6 +19,7 @@ fn any_finite() -> f32 {
 // @ob props=C19 tier=quick kind=P cfg=core-std timeout=120
 // @fn Xorshift64::next_bits
 // @clause contract of next_bits: non-zero state stays non-zero, the returned value is the new state, only self.0 is modified
+#[cfg(not(verif_skip_rand_next_bits_contract))]
 #[kani::proof_for_contract(Xorshift64::next_bits)]
 fn rand_next_bits_contract() {
     let mut g = Xorshift64(kani::any());
@@ -28,6 +29,7 @@ fn rand_next_bits_contract() {
 // @ob props=C19 tier=quick kind=P cfg=core-std timeout=120
 // @fn Xorshift64::next_bits
 // @clause the step function is injective on all 2^64 states, hence (with the contract) a bijection of the non-zero states
+#[cfg(not(verif_skip_rand_step_injective))]
 #[kani::proof]
 fn rand_step_injective() {
     let (a, b) = (any_rng(), any_rng());
@@ -41,6 +43,7 @@ fn rand_step_injective() {
 // @ob props=C19 tier=quick kind=P cfg=core-std timeout=120 role=premise
 // @fn Xorshift64::next_bits
 // @clause premise of the period lemma: the step is GF(2)-linear, step(a^b) = step(a)^step(b)
+#[cfg(not(verif_skip_rand_step_linear))]
 #[kani::proof]
 fn rand_step_linear() {
     let (a, b) = (any_rng(), any_rng());
@@ -54,6 +57,7 @@ fn rand_step_linear() {
 // @ob props=C19 tier=quick kind=P cfg=core-std timeout=120
 // @fn Xorshift64::next_bits Xorshift64::from_seed
 // @clause equal seeds yield equal sequences: output and successor state are functions of the state alone (induction step)
+#[cfg(not(verif_skip_rand_equal_seeds))]
 #[kani::proof]
 fn rand_equal_seeds() {
     let s: u64 = kani::any();
@@ -68,6 +72,7 @@ fn rand_equal_seeds() {
 // @ob props=C19 tier=quick kind=P cfg=core-std timeout=300
 // @fn <Uniform<f32> as Distrib>::sample
 // @clause for every state and every finite range start<end of finite width the float sample lies in [start, end)
+#[cfg(not(verif_skip_rand_uniform_f32_in_range))]
 #[kani::proof]
 fn rand_uniform_f32_in_range() {
     let mut g = any_rng();
@@ -82,6 +87,7 @@ fn rand_uniform_f32_in_range() {
 // @ob props=C19 tier=quick kind=P cfg=core-std timeout=300
 // @fn <Uniform<i32> as Distrib>::sample
 // @clause for every state the integer sample lies in [start, end) whenever the width end-start is positive and representable
+#[cfg(not(verif_skip_rand_uniform_i32_in_range))]
 #[kani::proof]
 fn rand_uniform_i32_in_range() {
     let mut g = any_rng();
@@ -95,6 +101,7 @@ fn rand_uniform_i32_in_range() {
 // @ob props=C19 tier=quick kind=P cfg=core-std timeout=120
 // @fn <Bernoulli as Distrib>::sample
 // @clause Bernoulli(p<=0) is false and Bernoulli(p>=1) is true for every state
+#[cfg(not(verif_skip_rand_bernoulli_extremes))]
 #[kani::proof]
 fn rand_bernoulli_extremes() {
     let mut g = any_rng();
@@ -114,6 +121,7 @@ fn rand_bernoulli_extremes() {
 // @ob props=C19 tier=quick kind=P cfg=core-std timeout=120
 // @fn <Bernoulli as Distrib>::sample
 // @clause modular variant: Bernoulli extremes hold against next_bits' contract alone (callee body replaced by its contract)
+#[cfg(not(verif_skip_rand_bernoulli_extremes_modular))]
 #[kani::proof]
 #[kani::stub_verified(Xorshift64::next_bits)]
 fn rand_bernoulli_extremes_modular() {
@@ -160,6 +168,7 @@ fn any_toks<const N: usize>() -> [Tok; N] {
 // @ob props=C19 tier=quick kind=P cfg=core-std timeout=300
 // @fn <Uniform<[T;N]> as Distrib>::sample ; <Uniform<Vector> as Distrib>::sample ; <Uniform<Point> as Distrib>::sample ; <(D,E) as Distrib>::sample
 // @clause the generic array, vector, point and tuple distributions draw their components sequentially in index order with the matching bounds and leave the same final state (instantiated at a harness-defined component type; the impls are parametric in the component type)
+#[cfg(not(verif_skip_rand_components_in_order_generic))]
 #[kani::proof]
 #[kani::unwind(5)]
 fn rand_components_in_order_generic() {
@@ -202,6 +211,7 @@ fn seq2(g0: Xorshift64, s: [f32; 2], e: [f32; 2]) -> (f32, f32, u64) {
 // @ob props=C19 tier=thorough kind=P cfg=core-std timeout=3000
 // @fn <Uniform<[T;N]> as Distrib>::sample
 // @clause the array distribution draws its components sequentially in index order and leaves the same final state (f32 components, any bounds)
+#[cfg(not(verif_skip_rand_array_in_order_f32))]
 #[kani::proof]
 #[kani::unwind(4)]
 fn rand_array_in_order_f32() {
@@ -217,6 +227,7 @@ fn rand_array_in_order_f32() {
 // @ob props=C19 tier=thorough kind=P cfg=core-std timeout=3000
 // @fn <Uniform<Vector> as Distrib>::sample
 // @clause the vector distribution draws x then y and leaves the same final state
+#[cfg(not(verif_skip_rand_vector_in_order_f32))]
 #[kani::proof]
 #[kani::unwind(4)]
 fn rand_vector_in_order_f32() {
@@ -232,6 +243,7 @@ fn rand_vector_in_order_f32() {
 // @ob props=C19 tier=thorough kind=P cfg=core-std timeout=3000
 // @fn <Uniform<Point> as Distrib>::sample
 // @clause the point distribution draws x then y and leaves the same final state
+#[cfg(not(verif_skip_rand_point_in_order_f32))]
 #[kani::proof]
 #[kani::unwind(4)]
 fn rand_point_in_order_f32() {
@@ -247,6 +259,7 @@ fn rand_point_in_order_f32() {
 // @ob props=C19 tier=thorough kind=P cfg=core-std timeout=3000
 // @fn <(D,E) as Distrib>::sample
 // @clause the tuple distribution draws its first then its second component and leaves the same final state
+#[cfg(not(verif_skip_rand_tuple_in_order_f32))]
 #[kani::proof]
 fn rand_tuple_in_order_f32() {
     let g0 = any_rng();
@@ -261,6 +274,7 @@ fn rand_tuple_in_order_f32() {
 // @ob props=C19 tier=thorough kind=P cfg=core-std timeout=1500
 // @fn <Uniform<[T;N]> as Distrib>::sample <(D,E) as Distrib>::sample
 // @clause array and tuple distributions over i32 draw sequentially in order (widths positive and representable)
+#[cfg(not(verif_skip_rand_components_in_order_i32))]
 #[kani::proof]
 #[kani::unwind(4)]
 fn rand_components_in_order_i32() {
@@ -284,6 +298,7 @@ fn rand_components_in_order_i32() {
 // @fn <UnitCircle as Distrib>::sample ; Vector::normalize
 // @clause for every generator state the unit-circle sampler returns without panicking: it never hands the zero vector to normalize() and rejects at most one draw (loop fully unwound, unwinding assertion on)
 #[cfg(feature = "fp")]
+#[cfg(not(verif_skip_rand_unit_circle_total))]
 #[kani::proof]
 #[kani::unwind(4)]
 fn rand_unit_circle_total() {
@@ -296,6 +311,7 @@ fn rand_unit_circle_total() {
 // @fn <UnitSphere as Distrib>::sample ; Vector::normalize
 // @clause for every generator state the unit-sphere sampler returns without panicking: it never hands the zero vector to normalize() and rejects at most one draw (loop fully unwound, unwinding assertion on)
 #[cfg(feature = "fp")]
+#[cfg(not(verif_skip_rand_unit_sphere_total))]
 #[kani::proof]
 #[kani::unwind(5)]
 fn rand_unit_sphere_total() {
@@ -308,6 +324,7 @@ fn rand_unit_sphere_total() {
 // @fn <VectorsOnUnitDisk as Distrib>::sample <PointsOnUnitDisk as Distrib>::sample
 // @bound at most 2 rejections (3 loop iterations); states needing more are excluded by the unwinding assumption
 // @clause samples from the unit disk lie inside it
+#[cfg(not(verif_skip_rand_disk_inside_bounded))]
 #[kani::proof]
 #[kani::unwind(4)]
 fn rand_disk_inside_bounded() {
